@@ -3,12 +3,14 @@
 use std::{
     cell::RefCell,
     collections::HashMap,
+    hash::Hasher,
     iter::repeat_n,
     mem::{swap, take},
     rc::Rc,
 };
 
 use ecow::eco_vec;
+use rapidhash::quality::RapidHasher;
 
 use crate::{
     Array, ArrayValue, Boxed, ImplPrimitive, Node, Ops, PersistentMeta, Primitive, Shape, SigNode,
@@ -135,19 +137,23 @@ pub(crate) fn f_mon_fast_fn(node: &Node, env: &Uiua) -> Option<(ValueMonFn, usiz
         return Some((spanned_mon_fn(*span, |v, _, _| Ok(v)), 0));
     }
     thread_local! {
-        static CACHE: RefCell<HashMap<Node, Option<(ValueMonFn, usize)>>>
+        static CACHE: RefCell<HashMap<u64, Option<(ValueMonFn, usize)>>>
         = RefCell::new(HashMap::new());
     }
     #[cfg(feature = "verif_hooks")]
     if crate::verif::c12::bypassed(crate::verif::c12::ZIP_FAST) {
         CACHE.with(|cache| cache.borrow_mut().clear());
     }
+    // The cached function holds the node's span indices and function indices
+    let mut hasher = RapidHasher::new(1);
+    node.hash_deep(None, &mut hasher);
+    let key = hasher.finish();
     CACHE.with(|cache| {
-        if !cache.borrow().contains_key(node) {
+        if !cache.borrow().contains_key(&key) {
             let f_and_depth = f_mon_fast_fn_impl(node, false, env);
-            cache.borrow_mut().insert(node.clone(), f_and_depth);
+            cache.borrow_mut().insert(key, f_and_depth);
         }
-        cache.borrow()[node].clone()
+        cache.borrow()[&key].clone()
     })
 }
 
